@@ -7,6 +7,8 @@ checks={
  'C02':dict(text="Every bounded schedule x every sequence of fetch outcomes (cacheable/uncacheable/error/timeout/panic) of concurrent requests (+purge) on one key; deadlock/livelock detector, entry never left fetching, no parked channel, epilogue requests served.", ref="4/C02", tech="stateless model checking: controlled scheduler + bounded DFS with data-choice points; deadlock detection"),
  'C07':dict(text="BFS over timed request histories per hit-for-pass configuration against the entry specification, plus every bounded schedule of concurrent requests during and right after the period (never queued; single probe).", ref="4/C07", tech="explicit-state BFS over event histories on the real code (replay) + controlled-scheduler DFS"),
  'C18':dict(text="BFS over requests/purges (by cache name, all caches, absent cache, absent key)/expiry/restart on two caches with and without a store through the real admin purge handler against per-(cache,key) specifications and the store's key set; plus every bounded schedule of a purge racing an in-flight fetch with a waiter followed by later requests.", ref="4/C18", tech="explicit-state BFS over event histories on the real code + controlled-scheduler DFS"),
+ 'C04':dict(text="BFS over timed histories {GET, tick+1, restart} for T in {1,2,3} x origin Age in {absent,0,1} x store in {none, TTL-honouring, lazy} with exact comparison against the entry specification (label, body, Age), plus every bounded schedule of concurrent requesters with 1 s ticks offered before every clock read (interval-sound oracle).", ref="4/C04", tech="explicit-state BFS over timed event histories on the real code + controlled-scheduler DFS with virtual clock"),
+ 'C10':dict(text="One request history (cold fetch, hit, expiry, purge, restart) where every store call's answer is a data choice from ~60 faults (errors, not-found, truncation at every field boundary, garbled fields), all executions with <=2 (quick) / <=3 (thorough) faults, on a TTL-honouring and a lazy store; plus every bounded schedule of 3 coalesced requests under store faults.", ref="4/C10", tech="exhaustive fault-sequence enumeration (deviation-bounded DFS over data-choice points) on the real code + controlled-scheduler DFS"),
 }
 notes={}
 m={"version":1,
